@@ -307,15 +307,27 @@ func setFacts(h *HV, k LeafKey, wm *Term) {
 	}
 }
 
+// heapGetHook observes every leaf version handed out (used to name recursive
+// spec functions after the versions they read).
+var heapGetHook func(*HV)
+
 func (h *Heap) Get(k LeafKey, sort Sort, keySort Sort) *HV {
+	v := h.get(k, sort, keySort)
+	if heapGetHook != nil {
+		heapGetHook(v)
+	}
+	return v
+}
+
+func (h *Heap) get(k LeafKey, sort Sort, keySort Sort) *HV {
 	if v, ok := h.m[k]; ok {
 		return v
 	}
 	var v *HV
 	if h.stableFrom != nil && isStableKey(k) {
-		v = h.stableFrom.Get(k, sort, keySort)
+		v = h.stableFrom.get(k, sort, keySort)
 	} else if h.ma != nil {
-		v = hvIteOf(h.mc, h.ma.Get(k, sort, keySort), h.mb.Get(k, sort, keySort))
+		v = hvIteOf(h.mc, h.ma.get(k, sort, keySort), h.mb.get(k, sort, keySort))
 	} else {
 		bn := fmt.Sprintf("H.%s.%s", h.epoch, sanitize(k.String()))
 		if b, ok := epochBases[bn]; ok {
